@@ -53,6 +53,45 @@ func foreignShapes() []tbin.Value {
 	}
 }
 
+// retypedElems: the container v written under a schema in which its element (key,
+// value) type is another one - widened integers, a struct instead of a scalar, and
+// the empty container of another element type.
+func retypedElems(v tbin.Value) []tbin.Value {
+	other := func(t tbin.Type) tbin.Value {
+		switch t {
+		case tbin.I64:
+			return tbin.Value{T: tbin.I32, I: 5}
+		case tbin.Struct:
+			return tbin.Value{T: tbin.Binary, B: []byte("was-a-struct")}
+		case tbin.I8, tbin.I16, tbin.I32:
+			return tbin.Value{T: tbin.I64, I: 5}
+		}
+		return tbin.Value{T: tbin.Struct, Fields: []tbin.Field{{ID: 1, V: tbin.Value{T: tbin.I8, I: 1}}}}
+	}
+	switch v.T {
+	case tbin.List, tbin.Set:
+		o := other(v.VT)
+		return []tbin.Value{
+			{T: v.T, VT: o.T, Items: []tbin.Value{o, o}},
+			{T: v.T, VT: o.T},
+		}
+	case tbin.Map:
+		ok, ov := other(v.KT), other(v.VT)
+		var keep tbin.Value
+		if len(v.Items) >= 2 {
+			keep = v.Items[1]
+		} else {
+			return []tbin.Value{{T: tbin.Map, KT: ok.T, VT: v.VT}, {T: tbin.Map, KT: v.KT, VT: ov.T}}
+		}
+		return []tbin.Value{
+			{T: tbin.Map, KT: ok.T, VT: v.VT, Items: []tbin.Value{ok, keep}},
+			{T: tbin.Map, KT: v.KT, VT: ov.T, Items: []tbin.Value{v.Items[0], ov}},
+			{T: tbin.Map, KT: ok.T, VT: ov.T},
+		}
+	}
+	return nil
+}
+
 // heavyShapes are injected only at the first and last field boundary.
 func heavyShapes() []tbin.Value {
 	return []tbin.Value{deepStruct(70), deepStruct(300), deepList(100), bigBinary(200000), bigList(20000)}
@@ -181,6 +220,24 @@ func steps(s tbin.Value, declared map[int16]tbin.Type, yield func(desc string, o
 			break
 		}
 	}
+	// a second occurrence of a present field with the SAME wire type: the later one wins
+	// (for a union that is still exactly one member set); and, for containers, the field
+	// rewritten with another element type (a widened container: its elements are skipped and
+	// the container reads as nil)
+	for i := range s.Fields {
+		same := s.Fields[i]
+		yield(fmt.Sprintf("same-typed duplicate of id=%d after it", same.ID), tbin.Value{T: tbin.Struct, Fields: append(append(clone(s.Fields[:i+1]), same), s.Fields[i+1:]...)})
+		if i+1 < len(s.Fields) {
+			yield(fmt.Sprintf("same-typed duplicate of id=%d at the end", same.ID), tbin.Value{T: tbin.Struct, Fields: append(clone(s.Fields), same)})
+		}
+		for k, alt := range retypedElems(same.V) {
+			fs := clone(s.Fields)
+			fs[i] = tbin.Field{ID: same.ID, V: alt}
+			yield(fmt.Sprintf("elements of id=%d retyped (#%d)", same.ID, k), tbin.Value{T: tbin.Struct, Fields: fs})
+			yield(fmt.Sprintf("element-retyped duplicate (#%d) of id=%d before it", k, same.ID), tbin.Value{T: tbin.Struct, Fields: append(append(clone(s.Fields[:i]), tbin.Field{ID: same.ID, V: alt}), s.Fields[i:]...)})
+			yield(fmt.Sprintf("element-retyped duplicate (#%d) of id=%d after it", k, same.ID), tbin.Value{T: tbin.Struct, Fields: append(append(clone(s.Fields[:i+1]), tbin.Field{ID: same.ID, V: alt}), s.Fields[i+1:]...)})
+		}
+	}
 	if len(s.Fields) > 1 {
 		fs := clone(s.Fields)
 		for i, j := 0, len(fs)-1; i < j; i, j = i+1, j-1 {
@@ -305,7 +362,7 @@ func one(e env, cell cells.Cell, ent reg.Entry, f *schema.File, t *schema.Type, 
 	wantErr := !ok || !e.P.Valid(f, t, exp)
 	want := ""
 	if !wantErr {
-		want = e.P.Key(f, t, e.P.FillDefaults(f, t, exp))
+		want = e.P.Key(f, t, e.P.FillDefaults(f, t, e.P.StripNil(exp)))
 	}
 	if w.WantSample() && w.R.Evaluations%1499 == 0 {
 		w.Sample(map[string]interface{}{"type": cell.Pkg + "." + cell.Def, "step": desc, "writer_value": wv.Key(), "reader_must_fail": wantErr})
